@@ -418,6 +418,27 @@ def r3(R, tus):
         "old root is lost - one connected object gets two labels")
     rets = [st for st in swalk(df.body) if st.k == "return" and st.e is not None and not (st.e.k == "int")]
     R.shape(len(rets) >= 1, "C11.R3", BL, "dset_find", "the return of the root")
+    # dset_makeunion links the ROOTS of the two labels: both arguments of dset_link are dset_find results.  S[r] is the root only for a
+    # label that was itself just searched; a label whose root was later linked under another root has depth 2
+    mu = cfront.find_func(tus, "dset_makeunion", BL)
+    mudefs = cfront.scalar_defs(mu)
+    links = [x for st, x in cfront.all_exprs(mu.body) if x.k == "call" and x.name == "dset_link"]
+    R.shape(len(links) == 1 and len(links[0].a) == 3, "C11.R3", BL, "dset_makeunion", "the dset_link(S, a, b) call")
+    muasg = {}
+    for st, x in cfront.all_exprs(mu.body):
+        if x.k == "asg" and x.op == "=" and x.a[0].k == "var":
+            muasg.setdefault(x.a[0].name, []).append(x.a[1])
+    for a_ in links[0].a[1:]:
+        e_ = cfront.esubst(a_, mudefs, 3)
+        while e_.k == "cast":
+            e_ = e_.a[0]
+        if e_.k == "var" and len(muasg.get(e_.name, [])) == 1:
+            e_ = muasg[e_.name][0]
+            while e_.k == "cast":
+                e_ = e_.a[0]
+        R.check(e_.k == "call" and e_.name == "dset_find", "C11.R3", BL, links[0].line, "dset_makeunion", "dset_link argument %s = %s" % (estr(a_), estr(e_)),
+                "dset_link is given %s, which is the parent of the label and not necessarily its root: when the label has depth 2 the "
+                "intermediate node is re-parented and the root it pointed to is cut off - one connected object gets two labels" % estr(e_))
     # dset_link: higher points to lower
     lk = cfront.find_func(tus, "dset_link", BL)
     sts = crules.stores_to_param(lk, lk.params[0].name)
@@ -515,6 +536,41 @@ def r4(R, tus):
         if main:
             h = omp.loop_header(main[0])
             R.check(estr(h[1]) == "0" and estr(h[2]) == nnz and h[3] == 1 and not h[5], "C11.R4", SP, main[0].line, fname, "scan loop k in [0, nnz)", "the scan does not visit every pixel")
+    # the splat variant labels in a dense work image and copies the result out in a last loop over all k: that loop must store into
+    # labels[k] on EVERY path of an iteration (or the cells are zeroed unconditionally before) - a store only under 'Z[p] > 0' leaves
+    # the previous content of the output for the pixels that are not above the threshold
+    g = cfront.find_func(tus, "sparse_connectedpixels_splat", SP)
+    lab, nnz = g.params[5].name, g.params[3].name
+    cfg = g.cfg
+    import networkx as nx
+    covered = False
+    found = False
+    for lp in [s_ for s_ in swalk(g.body) if s_.k == "for" and omp.loop_header(s_) is not None]:
+        h = omp.loop_header(lp)
+        if not (estr(h[1]) == "0" and estr(h[2]) == nnz):
+            continue
+        heads = [n_ for n_ in cfg.nodes if n_.k == "join" and n_.s is lp]
+        if not heads:
+            continue
+        hd = heads[0].id
+        body_ids = (nx.descendants(cfg.g, hd) & nx.ancestors(cfg.g, hd)) - {hd}      # the nodes of one iteration
+        sts = [n_ for n_ in cfg.nodes if n_.id in body_ids and n_.k == "expr" and n_.e is not None and n_.e.k == "asg" and estr(n_.e.a[0]) == "%s[%s]" % (lab, h[0])]
+        if not sts:
+            continue
+        found = True
+        # unconditional zeroing as the first statement (the sparse idiom) or: no path through an iteration avoids every store
+        hg = cfg.g.copy()
+        for n_ in sts:
+            hg.remove_node(n_.id)
+        # without the stores, can an iteration still get from the head back to the head?
+        hg2 = hg.subgraph(body_ids | {hd})
+        leaks = any(hd in nx.descendants(hg2, s_) for s_ in hg2.successors(hd)) if hd in hg2 else True
+        if not leaks:
+            covered = True
+    R.shape(found, "C11.R4", SP, "sparse_connectedpixels_splat", "a loop over k in [0, nnz) that stores into %s[k]" % lab)
+    R.check(covered, "C11.R4", SP, g.line, "sparse_connectedpixels_splat", "%s[k] is stored on every path of the output loop" % lab,
+            "the labels of pixels that are not above the threshold are not written (the store is conditional): a reused output array keeps "
+            "stale labels for them, possibly larger than the count returned, and the splat and sparse variants no longer give the same partition")
 
 
 # --------------------------------------------------------------------------------------------------
